@@ -177,6 +177,10 @@ def _open_for_append(root, retries=1, **kwargs):
             yield f
 
 
+def _reraise(error):
+    raise error
+
+
 def write_str(string: str, path: pathlib.Path,
               encoding=None, newline=None,
               compression=None,
@@ -343,7 +347,7 @@ def archive_dir(src: pathlib.Path, dest: pathlib.Path,
         dest: path pointing to a zip file
     """
     src = src.resolve()
-    for d, _, files in os.walk(src):
+    for d, _, files in os.walk(src, onerror=_reraise):
         for f in files:
             srcfile = pathlib.Path(os.path.join(d, f))
             rel = srcfile.relative_to(src)
